@@ -28,6 +28,10 @@ use crate::REQUEST_FRAMING_BYTES;
 
 const HEX: Encoding = HEXLOWER_PERMISSIVE;
 
+/// Deepest nesting `to_string` will expand; values nested deeper are shown as hex.
+/// Genuine Roughtime messages nest three levels (response, CERT, DELE).
+const MAX_DISPLAY_DEPTH: usize = 8;
+
 ///
 /// A Roughtime protocol message; a map of u32 tags to arbitrary byte-strings.
 ///
@@ -336,12 +340,19 @@ impl RtMessage {
             result.push_str(&value.len().to_string());
             result.push_str(") = ");
 
-            if tag.is_nested() {
-                let nested_msg = RtMessage::from_bytes(value).unwrap();
-                result.push_str(&nested_msg.to_string(indent_level + 1))
+            // Nested values are untrusted bytes: they may not decode, or may nest without bound
+            let nested_msg = if tag.is_nested() && indent_level < MAX_DISPLAY_DEPTH {
+                RtMessage::from_bytes(value).ok()
             } else {
-                result.push_str(&HEX.encode(value));
-                result.push('\n');
+                None
+            };
+
+            match nested_msg {
+                Some(nested_msg) => result.push_str(&nested_msg.to_string(indent_level + 1)),
+                None => {
+                    result.push_str(&HEX.encode(value));
+                    result.push('\n');
+                }
             }
         }
 
